@@ -131,7 +131,7 @@ func genC14(t *rapid.T, tier string) interface{} {
 	minSteps := rapid.SampledFrom([]int{3, 12, 24}).Draw(t, "minsteps")
 	p.Steps = rapid.SliceOfN(rapid.Custom(func(t *rapid.T) c14Step {
 		var s c14Step
-		s.Kind = rapid.SampledFrom([]string{"tx", "tx", "query", "query", "query", "commit", "commit"}).Draw(t, "kind")
+		s.Kind = rapid.SampledFrom([]string{"tx", "tx", "tx", "query", "query", "query", "query", "query", "commit", "commit", "commit", "reopen"}).Draw(t, "kind")
 		switch s.Kind {
 		case "tx":
 			n := rapid.IntRange(1, 4).Draw(t, "nw")
@@ -245,6 +245,7 @@ func execC14(prog interface{}, c *Case) *Violation {
 		}
 	}
 	absBetween, foreignChecked, midBlock := false, 0, false
+	reopened := false
 
 	for si := range p.Steps {
 		s := &p.Steps[si]
@@ -262,6 +263,22 @@ func execC14(prog interface{}, c *Case) *Violation {
 					model[w.St][string(unhex(w.K))] = unhex(w.V)
 				}
 			}
+		case "reopen":
+			// the process stops (uncommitted writes of an open block are lost) and the application is rebuilt from
+			// its database: old versions are then read from disk
+			if latest < 1 {
+				continue
+			}
+			app, err = newKVApp(db, p.NStores, p.KeepRecent, p.KeepEvery)
+			if err != nil {
+				return violf("C14/reopen-failed", "step %d: the application cannot be reopened at height %d: %v", si, latest, err)
+			}
+			model = cloneModel(hist.snaps[latest])
+			blockOpen = false
+			reopened = true
+			if info := app.Info(abci.RequestInfo{}); info.LastBlockHeight != latest || !bytes.Equal(info.LastBlockAppHash, hist.hashes[latest]) {
+				return violf("C14/info-after-reopen", "step %d: reopened application reports (%d,%X), committed (%d,%X)", si, info.LastBlockHeight, info.LastBlockAppHash, latest, hist.hashes[latest])
+			}
 		case "commit":
 			begin()
 			app.EndBlock(abci.RequestEndBlock{Height: latest + 1})
@@ -271,6 +288,9 @@ func execC14(prog interface{}, c *Case) *Violation {
 			hist.snaps[latest] = cloneModel(model)
 			hist.hashes[latest] = res.Data
 			hist.commit(latest, pp)
+			if info := app.Info(abci.RequestInfo{}); info.LastBlockHeight != latest || !bytes.Equal(info.LastBlockAppHash, res.Data) {
+				return violf("C14/info-after-commit", "step %d: Info reports (%d,%X) after Commit returned (%d,%X)", si, info.LastBlockHeight, info.LastBlockAppHash, latest, res.Data)
+			}
 		case "query":
 			q := s.Q
 			if q == nil {
@@ -533,6 +553,9 @@ func execC14(prog interface{}, c *Case) *Violation {
 	}
 	if midBlock {
 		c.Label("query-with-uncommitted-writes")
+	}
+	if reopened {
+		c.Label("reopened")
 	}
 	if absBetween {
 		c.Label("absence-between-present-keys")
